@@ -1177,8 +1177,8 @@ func run(c *core.Ctx) {
 }
 
 func initEnv(c *core.Ctx) {
-	// a runaway recursion in the sorter ends the process at 64 MB of stack instead of 1 GB
-	debug.SetMaxStack(64 << 20)
+	// a runaway recursion in the sorter ends the process at 8 MB of stack instead of 1 GB
+	debug.SetMaxStack(8 << 20)
 }
 
 var Engine = &core.Engine{
